@@ -50,8 +50,13 @@ def generate(repo, emit, src, func_body):
 
     b = func_body(th, r'static\s+var\s+Thread_Current\s*\(\s*void\s*\)\s*\{')
     r = func_body(th, r'static\s+var\s+Thread_Init_Run\s*\(\s*var\s+self\s*\)\s*\{')
+    # accepted forms of the lookup (both return the value stored under the pthread key whenever it is not NULL;
+    # the NULL case - the main thread - may be inlined or live in a helper):
+    #   var wrapper = pthread_getspecific(K); ... if (wrapper is NULL) { <main> } return wrapper;
+    #   var wrapper = pthread_getspecific(K); if (wrapper isnt NULL) { return wrapper; } return <main helper>();
     okc = bool(b) and bool(r) and re.search(r'var\s+wrapper\s*=\s*pthread_getspecific\(\s*Thread_Key_Wrapper\s*\)', b) \
-        and re.search(r'return\s+wrapper\s*;', b) \
+        and (re.search(r'if\s*\(\s*wrapper\s+is\s+NULL\s*\)\s*\{.*\}\s*return\s+wrapper\s*;', b, re.S)
+             or re.search(r'if\s*\(\s*wrapper\s+isnt\s+NULL\s*\)\s*\{\s*return\s+wrapper\s*;\s*\}', b)) \
         and re.search(r'struct\s+Thread\s*\*\s*t\s*=\s*self\s*;\s*pthread_setspecific\(\s*Thread_Key_Wrapper\s*,\s*t\s*\)', r)
     emit('thr_current_via_key', 'Definition thr_current_via_key : bool := true.' if okc else None)
     oki = bool(r) and re.search(r'var\s+gc\s*=\s*new_raw\(\s*GC\s*,', r) and re.search(r'var\s+exc\s*=\s*new_raw\(\s*Exception\s*\)', r) \
@@ -60,9 +65,12 @@ def generate(repo, emit, src, func_body):
 
     # ---- Mutex_Trylock on EBUSY
     b = func_body(th, r'static\s+bool\s+Mutex_Trylock\s*\(\s*var\s+self\s*\)\s*\{')
-    m = b and re.search(r'pthread_mutex_trylock\([^)]*\)\s*;\s*if\s*\(\s*err\s*(?:==|is)\s*EBUSY\s*\)\s*\{\s*return\s+(true|false)\s*;', b)
+    # accepted forms: `int err = pthread_mutex_trylock(..); if (err == EBUSY) { return X; }` and
+    # `switch (pthread_mutex_trylock(..)) { case EBUSY: return X; ...` - X is read from the source either way
+    m = b and (re.search(r'pthread_mutex_trylock\([^)]*\)\s*;\s*if\s*\(\s*err\s*(?:==|is)\s*EBUSY\s*\)\s*\{\s*return\s+(true|false)\s*;', b)
+               or re.search(r'switch\s*\(\s*pthread_mutex_trylock\([^)]*\)\s*\)\s*\{[^}]*?case\s+EBUSY\s*:\s*return\s+(true|false)\s*;', b, re.S))
     emit('thr_trylock_busy_result', ('Definition thr_trylock_busy_result : bool := %s.   (* source: if (err == EBUSY) { return %s; } *)'
-                                     % (m.group(1), m.group(1))) if m else None)
+                                     % ((m.group(1) or m.group(2)), (m.group(1) or m.group(2)))) if m else None)
 
     # ---- exception_catch: is `active` cleared when the exception is handed out?
     b = func_body(ex, r'var\s+exception_catch\s*\(\s*var\s+args\s*\)\s*\{')
